@@ -17,6 +17,14 @@ CHECKS = {
   "Seeded search over edit histories on generated sharing topologies: after every accepted operation every calculated attribute of every object reachable from the system is compared hour by hour with a system rebuilt from the same final inputs; plus the before/after reference totals. Sampling evidence, not proof: a clean batch bounds the defect rate of histories of this shape.",
   "Trusts the library's from-scratch computation as the reference (formula errors common to both are invisible), pint/pandas, and the 1e-9 relative tolerance; histories of <= 12 (quick) / 24 (thorough) operations on <= 3 usage patterns.",
   "deterministic simulation: seeded operation histories vs rebuilt reference model, every step"),
+"C14": ("fault_enumeration", "3.C14",
+  "Fault enumeration: for every (class, constructor parameter) pair of the public class list, every invalid-value kind of the catalogue (wrong dimension, negative, wrong types, wrong-class list members, values outside allowed / conditional lists, key changes invalidating a dependent value) is injected at construction, as a single assignment, inside grouped updates (both orders) and through the list mutators on a computed model holding all 18 classes; the call must raise and an identity snapshot of the whole model (same value objects, same links, same dependency edges) must be unchanged. Further runs place catalogue faults at random points of seeded edit histories and compare the next accepted edit with a rebuilt reference.",
+  "Catalogue kinds are those named by the statement; None for a required quantity, hourly series of another length/dimension and wrong-class scalar links are injected with the weaker oracle 'if refused, nothing changed'. Book-keeping attributes (previous_*, all_changes, contextual containers) are excluded from 'unchanged'.",
+  "deterministic simulation with enumerated invalid-input faults; identity snapshot oracle"),
+"C16": ("exploration", "3.C16",
+  "Seeded histories made only of link operations (every list mutator with present, absent, duplicate, no-op and out-of-range arguments, list and scalar link assignments, equal/self assignments, object creation+linking, self_delete of referenced and unreferenced objects, attempts to create a second System over shared objects) checked after every operation against a plain-Python link model: exception parity with the built-in list, return values, list contents, reverse look-ups (containers, jobs of servers/storages/services, steps/patterns/networks of jobs, patterns of journeys/networks/countries, systems of every object), attachment of the live list.",
+  "Arguments are always modeling objects of the class the list accepts (wrong classes are C14's subject); sort/reverse and slice assignment/deletion are not generated (DESIGN 2.3); an exception thrown from inside an update_<attr> function ends the run without a verdict (recomputation faults are C15's subject).",
+  "deterministic simulation: seeded link-operation histories vs plain-Python link model"),
 }
 PENDING = ["C05","C07","C08","C13","C14","C15","C16","C18","C19"]
 for pid in PENDING:
